@@ -155,7 +155,7 @@ def m_refine_pow_abs(case, v):
         return False
     got = v.detail.get("result")
     for b, k, n in _nested_pows(d, []):
-        if _is_number(k) and _is_number(n) and not (k[0] == "Integer" and int(k[1]) % 2 == 0) and _contains(got, ["Abs", b]):
+        if _is_number(k) and _is_number(n) and not (k[0] == "Integer" and int(k[1]) % 2 == 0) and ar.dump_has(got, ("Abs",)):   # Abs(b) up to the sign abs() normalises
             return True
     return False
 
